@@ -191,7 +191,7 @@
 		match dt.checked_to_offset(UtcOffset::UTC) { Some(u) => u, None => { kani::assume(false); unreachable!() } }
 	}
 
-	/// @ob time.form @props C04,C09,C10 @kind forall @tier quick @replay time @timeout 1500 @mem 12 @fns rcgen::write_dt_utc_or_generalized,rcgen::dt_strip_nanos,rcgen::dt_to_generalized
+	/// @ob time.form @props C04,C09,C10 @kind forall @tier quick @replay time @timeout 1800 @mem 28 @fns rcgen::write_dt_utc_or_generalized,rcgen::dt_strip_nanos,rcgen::dt_to_generalized
 	/// @bound "every OffsetDateTime of the time crate (years -9999..=9999, every ordinal, h:m:s.ns, every UTC offset h:m:s) whose UTC year is in 0..=9999"
 	#[kani::proof]
 	#[kani::unwind(24)]
@@ -211,7 +211,7 @@
 		assert!(der[der.len() - 1] == b'Z', "UTC, trailing Z, no fraction");
 	}
 
-	/// @ob time.instant @props C09 @kind forall @tier quick @replay time @timeout 1800 @mem 12 @fns rcgen::write_dt_utc_or_generalized,rcgen::dt_strip_nanos,rcgen::dt_to_generalized
+	/// @ob time.instant @props C09 @kind forall @tier quick @replay time @timeout 1800 @mem 28 @fns rcgen::write_dt_utc_or_generalized,rcgen::dt_strip_nanos,rcgen::dt_to_generalized
 	/// @bound "same domain as time.form; the digits are decoded and compared with the instant in UTC truncated to seconds"
 	#[kani::proof]
 	#[kani::unwind(24)]
@@ -249,7 +249,7 @@
 		let _ = yasna::construct_der(|w| write_dt_utc_or_generalized(w, dt));
 	}
 
-	/// @ob time.strip_nanos @props C09 @kind forall @tier quick @timeout 900 @fns rcgen::dt_strip_nanos
+	/// @ob time.strip_nanos @props C09 @kind forall @tier quick @timeout 900 @mem 20 @replay time @fns rcgen::dt_strip_nanos
 	#[kani::proof]
 	#[kani::unwind(8)]
 	fn strip_nanos_contract() {
